@@ -234,10 +234,16 @@ Proof.
   - intros. reflexivity.
 Qed.
 
+(* two DIFFERENT rosters (other keys, one service key each) satisfy the hypotheses of
+   roster_injective_same_profile *)
+Definition sat_r1 : roster := [ {| m_key := k32 "A"; m_srv := [k32 "B"] |}; {| m_key := k32 "C"; m_srv := [] |} ].
+Definition sat_r2 : roster := [ {| m_key := k32 "D"; m_srv := [k32 "E"] |}; {| m_key := k32 "F"; m_srv := [] |} ].
+
 Example roster_hypotheses_satisfiable :
-  keys_len 32 (roster_keys f16_r2) /\ 0 < 32 /\
-  map (fun m => length (m_srv m)) f16_r2 = map (fun m => length (m_srv m)) f16_r2.
-Proof. repeat split; repeat constructor. Qed.
+  0 < 32 /\ keys_len 32 (roster_keys sat_r1) /\ keys_len 32 (roster_keys sat_r2) /\
+  map (fun m => length (m_srv m)) sat_r1 = map (fun m => length (m_srv m)) sat_r2 /\
+  roster_bins sat_r1 <> roster_bins sat_r2.
+Proof. repeat apply conj; try (repeat constructor); discriminate. Qed.
 
 (* legal rosters never crash *)
 Lemma new_roster_legal (H256 U5 : bytes -> bytes) g r k0 rest :
